@@ -7,6 +7,7 @@ import (
 	"sort"
 	"strings"
 	"sync"
+	"sync/atomic"
 	"time"
 
 	"github.com/enbility/spine-go/api"
@@ -37,6 +38,9 @@ import (
 //             lists are duplicates while unanswered, lists that differ anywhere are different requests and are
 //             never withheld. (The same commands in another ORDER are not generated: the statement does not say
 //             whether [A,B] and [B,A] are "the same command".)
+//             Destination shapes: entity [1,1] feature 1, entity [11] feature 1, entity [1] feature 11 (the digits of
+//             entity [1] feature 1, grouped differently) x the four single commands are part of the domain as well:
+//             different addresses are different destinations, whatever a rendering of them looks like.
 //   notify    sequential histories of 1..260 notifications (API and subscription fan-out) mixed with
 //             other sends; without lookups each of the last 100 must be retrievable unchanged; with
 //             interleaved lookups an exact LRU-with-promotion model separates the known finding D19
@@ -58,7 +62,8 @@ import (
 //             withheld with that counter, as on any healthy connection).
 //   conc(-race) 8..16 goroutines on the senders of two connections mixing all sender calls; uniqueness
 //             per tap, interval issue order, identity of returned counter and datagram, soundness of
-//             withholding on the recorded intervals, lookups equal to the tap.
+//             withholding on the recorded intervals, lookups equal to the tap. Afterwards (all goroutines returned)
+//             every notification of a connection that carried at most 100 of them is looked up: found, equal to the tap.
 
 const c13CacheBound = 48 // generous constant for (*Sender).VerifRequestCacheLen(); the code keeps about 21
 
@@ -74,11 +79,11 @@ func init() {
 	rig.Register(&rig.Check{
 		ID:    "C13",
 		Floor: 90,
-		Rule: "dedupe: case = seeded history of 40-160 sender operations on two connections (request from a 44 key domain: 4 destinations x 4 commands + 8 subscription/binding calls + 4 RequestRemoteData + 2 destinations x 8 lists of 2-3 commands that share first/last commands or prefixes with each other and with the single-command requests (30% of the requests, half of them aimed at a list related to an unanswered request), unique request, notify/write/reply, " +
+		Rule: "dedupe: case = seeded history of 40-160 sender operations on two connections (request from a 44 key domain: 4 destinations x 4 commands + 8 subscription/binding calls + 4 RequestRemoteData + 2 destinations x 8 lists of 2-3 commands that share first/last commands or prefixes with each other and with the single-command requests (30% of the requests, half of them aimed at a list related to an unanswered request) + 3 regrouped destinations (entity [1,1] feature 1, entity [11] feature 1, entity [1] feature 11: the digits of entity [1] feature 1) x 4 commands (16% of the requests, half of them aimed at a destination whose sibling carries the same command unanswered), unique request, notify/write/reply, " +
 			"response by API, by accepted inbound reply/result or by an inbound reply/result the stack rejects (foreign function, unknown local feature, never announced source feature) referencing an unanswered/answered/unknown/repeated/foreign counter), every third case followed by the bounded-memory probe; " +
 			"notify: case = (number of notifications 1..260 with the boundaries 99,100,101 forced, lookups interleaved or not, share of fan-out notifications, proportion of other outbound datagrams per notification {0,1/4,1,3,6,12} drawn from reply/resultSuccess/resultError/write/read request/subscribe/unsubscribe/bind/unbind/RequestRemoteData, bursts of 99/100/101/150 other datagrams behind a notification, notifications on the second connection); " +
 			"mute: case = 3-6 requests of the 44 key domain + FeatureLocal.SubscribeToRemote/BindToRemote, each issued three times in a drawn interleaving with notify/write calls on a connection without writer, then once and once more on the connection that replaces it (with a writer); non-trivial if at least 9 failing calls and 3 requests written after the reconnect were judged; " +
-			"conc: case = (8-16 goroutines, 25-80 calls each, mix 'all calls' or 'few keys', connection writer yielding the processor before every n-th write, n in {never,1,2,3,5}). A case is non-trivial if it judged at least one withheld and one re-enabled request (dedupe), at least one retrieval per retained notification (notify), " +
+			"conc: case = (8-16 goroutines, 25-80 calls each, mix 'all calls' or 'few keys', connection writer yielding the processor before every n-th write, n in {never,1,2,3,5}); after all goroutines have returned every notification of a connection that carried at most 100 of them is looked up sequentially (found, equal to the tap). A case is non-trivial if it judged at least one withheld and one re-enabled request (dedupe), at least one retrieval per retained notification (notify), " +
 			"or at least 200 datagrams with at least one pair of non-overlapping calls (conc); distinct = distinct operation-shape sequences (hash), counters and payload values excluded.",
 		Assumptions: []string{
 			"'identical' is read as the statement defines it: same destination address and same command list; source address, classifier and ack flag are not varied within one key",
@@ -87,6 +92,8 @@ func init() {
 			"'same command' is read as 'the same command list': two requests whose lists differ in any position or in length are different requests; lists that are permutations of each other are not generated (the statement does not decide them)",
 			"notifications older than the last 100 of their connection may or may not be retrievable (the statement only promises the last 100); a counter that no notification of the connection carries must never yield a datagram",
 			"in concurrent histories a response is only ever generated for a counter the harness has already seen returned",
+			"conc, retrieval afterwards: a connection that carried at most 100 notifications never filled the cache of 100, so neither a Put nor the promotion by a concurrent lookup (D19) can have evicted one: a notification that is missing once all calls have returned is a violation (notifycache/last-100-missing-after-concurrent-use); connections with more than 100 notifications are not judged there",
+			"'same destination' is the same address (device, entity path, feature): entity [1,1] feature 1, entity [11] feature 1, entity [1] feature 11 and entity [1] feature 1 are four destinations; the sender is handed these addresses directly (Sender.Request does not require a destination to be known)",
 			"a request whose send failed (connection without writer: the only send fault the sender can produce) was never written to the peer, so it is not an 'unanswered request': a later identical request must not be withheld because of it, and since it cannot be written either the call must return an error; which counter accompanies the error is not judged. On a connection with a writer an error return stays a violation",
 		},
 		Parts: []rig.Part{
@@ -263,6 +270,35 @@ func c13Multi(cw *c13World, p *rig.Peer) []c13Req {
 	return dom
 }
 
+// c13Shapes: requests to destinations whose addresses consist of the same digits, grouped differently: entity [1,1]
+// feature 1, entity [11] feature 1, entity [1] feature 11 (their fourth sibling, entity [1] feature 1, is d0 of
+// c13Domain), each with the four single commands c0..c3 of the domain. "Same destination" is the same ADDRESS
+// (device, entity path, feature): these are different destinations, so a request to one of them is a different
+// request from the same command sent to another one and is never withheld because of it. The sender does not need to
+// know a destination (Sender.Request writes to whatever address it is given), so the peer does not announce them.
+func c13Shapes(cw *c13World, p *rig.Peer) []c13Req {
+	selCmd := func(id uint) model.CmdType {
+		return model.CmdType{Function: util.Ptr(model.FunctionTypeMeasurementListData),
+			Filter: []model.FilterType{{CmdControl: &model.CmdControlType{Partial: &model.ElementTagType{}},
+				MeasurementListDataSelectors: &model.MeasurementListDataSelectorsType{MeasurementId: util.Ptr(model.MeasurementIdType(id))}}},
+			MeasurementListData: &model.MeasurementListDataType{}}
+	}
+	cmds := [][]model.CmdType{
+		{{MeasurementListData: &model.MeasurementListDataType{}}},
+		{selCmd(1)},
+		{selCmd(2)},
+		{{MeasurementDescriptionListData: &model.MeasurementDescriptionListDataType{}}},
+	}
+	dests := []*model.FeatureAddressType{rig.FA(p.Addr, []uint{1, 1}, 1), rig.FA(p.Addr, []uint{11}, 1), rig.FA(p.Addr, []uint{1}, 11)}
+	var dom []c13Req
+	for di, d := range dests {
+		for ci, cm := range cmds {
+			dom = append(dom, c13Req{name: fmt.Sprintf("s%dc%d", di, ci), cls: model.CmdClassifierTypeRead, src: cw.cl.Address(), dst: d, cmd: cm, via: "request"})
+		}
+	}
+	return dom
+}
+
 // c13Sig: the renderings c13Related compares, computed once per request of a connection's domain.
 type c13Sig struct{ key, dst, first, last string }
 
@@ -313,6 +349,7 @@ type c13Conn struct {
 	p          *rig.Peer
 	dom        []c13Req
 	multi      []c13Req // requests with several commands
+	shapes     []c13Req // requests to the destinations [1,1]/1, [11]/1, [1]/11 (index = 4*destination + command)
 	relSig     []c13Sig // renderings of multi + the 16 single-command read requests: what a multi-command request can be confused with
 	multiSig   []c13Sig // renderings of multi, same index
 	unanswered map[string][]model.MsgCounterType
@@ -354,7 +391,7 @@ func c13Dedupe(c *rig.Ctx) {
 	}
 	var conns []*c13Conn
 	for _, p := range cw.peers {
-		cn := &c13Conn{p: p, dom: c13Domain(cw, p), multi: c13Multi(cw, p), unanswered: map[string][]model.MsgCounterType{}, keyOf: map[model.MsgCounterType]string{}, answered: map[model.MsgCounterType]bool{}, seen: map[model.MsgCounterType]bool{}}
+		cn := &c13Conn{p: p, dom: c13Domain(cw, p), multi: c13Multi(cw, p), shapes: c13Shapes(cw, p), unanswered: map[string][]model.MsgCounterType{}, keyOf: map[model.MsgCounterType]string{}, answered: map[model.MsgCounterType]bool{}, seen: map[model.MsgCounterType]bool{}}
 		// what the stack sent on its own while connecting is part of the history
 		for _, d := range p.Tap.Take() {
 			cn.absorb(c, d, viol)
@@ -379,6 +416,24 @@ func c13Dedupe(c *rig.Ctx) {
 	nOps := 40 + r.Intn(c.Pick(100, 140))
 	var withheld, reenabled, fresh, evictedResend int64
 	var multiSent, multiWithheld, multiBesideRelated int64
+	var shapeSent, shapeWithheld, shapeBesideSibling int64
+	// shapeSiblings: the requests that carry the same command as shapes[si] to a destination made of the same digits
+	// (the other two shapes and d0 = entity [1] feature 1 of the domain)
+	shapeSiblings := func(cn *c13Conn, si int) (sib []c13Req) {
+		ci := si % 4
+		for k := ci; k < len(cn.shapes); k += 4 {
+			if k != si {
+				sib = append(sib, cn.shapes[k])
+			}
+		}
+		return append(sib, cn.dom[ci])
+	}
+	unansweredSiblings := func(cn *c13Conn, si int) (n int) {
+		for _, o := range shapeSiblings(cn, si) {
+			n += len(cn.unanswered[o.key()])
+		}
+		return n
+	}
 	checkLen := func(cn *c13Conn, where string) {
 		if n := c13Sender(cn.p).VerifRequestCacheLen(); n > c13CacheBound {
 			viol("dedupe/memory-exceeds-bound", "%s: the sender remembers %d unanswered requests (bound %d)", where, n, c13CacheBound)
@@ -553,7 +608,40 @@ func c13Dedupe(c *rig.Ctx) {
 				}
 				q = cn.multi[mi]
 			}
-			if len(q.cmd) > 1 {
+			si := -1
+			if r.Intn(100) < 16 {
+				// a request to one of the regrouped destinations [1,1]/1, [11]/1, [1]/11; every second time one whose
+				// sibling (same command, destination made of the same digits) is unanswered right now, if there is one
+				si = r.Intn(len(cn.shapes))
+				if r.Intn(2) == 0 {
+					var cand []int
+					for k := range cn.shapes {
+						if len(cn.unanswered[cn.shapes[k].key()]) == 0 && unansweredSiblings(cn, k) > 0 {
+							cand = append(cand, k)
+						}
+					}
+					if len(cand) > 0 {
+						si = cand[r.Intn(len(cand))]
+					}
+				}
+				q = cn.shapes[si]
+			}
+			if si >= 0 {
+				shape = append(shape, "QS")
+				sibs, own := unansweredSiblings(cn, si), len(cn.unanswered[q.key()])
+				if f, _, ok := request(cn, q, "request to a regrouped destination"); ok {
+					if f {
+						shapeSent++
+						if sibs > 0 && own == 0 {
+							// the deciding shape: written although the same command to a destination made of the same digits is
+							// unanswered (request() has reported it if it was withheld instead)
+							shapeBesideSibling++
+						}
+					} else {
+						shapeWithheld++
+					}
+				}
+			} else if len(q.cmd) > 1 {
 				shape = append(shape, fmt.Sprintf("QM%d", len(q.cmd)))
 				related := 0
 				qs := c13SigOf(q)
@@ -702,6 +790,9 @@ func c13Dedupe(c *rig.Ctx) {
 	c.Count("dedupe:multi-command-requests-sent", multiSent)
 	c.Count("dedupe:multi-command-requests-withheld-as-duplicates", multiWithheld)
 	c.Count("dedupe:multi-command-requests-sent-while-a-request-sharing-destination-and-first-or-last-command-is-unanswered", multiBesideRelated)
+	c.Count("dedupe:regrouped-destination-requests-sent", shapeSent)
+	c.Count("dedupe:regrouped-destination-requests-withheld-as-duplicates", shapeWithheld)
+	c.Count("dedupe:regrouped-destination-requests-sent-while-the-same-command-to-a-destination-of-the-same-digits-is-unanswered", shapeBesideSibling)
 	mx := 0
 	for _, cn := range conns {
 		if n := cn.unansweredCount(); n > mx {
@@ -1123,11 +1214,24 @@ func c13Conc(c *rig.Ctx) {
 	if c.Race {
 		per = 20 + r.Intn(30)
 	}
-	for _, p := range cw.peers {
-		p.Tap.Take()
+	var preNotifies [2]int // notifications written before the concurrent phase (none are expected; counted for the "at most 100" premise)
+	for pi, p := range cw.peers {
+		for _, d := range p.Tap.Take() {
+			if c13Cls(d) == model.CmdClassifierTypeNotify {
+				preNotifies[pi]++
+			}
+		}
 	}
 	// 12 single-command requests + 8 requests with 2-3 commands (same destination, shared first/last commands)
+	// + the 3 destination shapes [1,1]/1, [11]/1, [1]/11 with one command
 	doms := [][]c13Req{append(c13Domain(cw, cw.peers[0])[:12:12], c13Multi(cw, cw.peers[0])[:8]...), append(c13Domain(cw, cw.peers[1])[:12:12], c13Multi(cw, cw.peers[1])[:8]...)}
+	for pi := range doms {
+		for _, q := range c13Shapes(cw, cw.peers[pi]) {
+			if strings.HasSuffix(q.name, "c0") {
+				doms[pi] = append(doms[pi], q)
+			}
+		}
+	}
 	var shared [2]struct {
 		mu     sync.Mutex
 		issued []model.MsgCounterType
@@ -1284,6 +1388,113 @@ func c13Conc(c *rig.Ctx) {
 		return
 	}
 
+	// epilogue: notifications against a hail of lookups. On a connection that has carried at most 60 notifications so
+	// far two goroutines send 15 notifications each while two others look counters up in a tight loop (the counters the
+	// notifications are about to get, so hits and misses both occur): Notify and DatagramForMsgCounter work on the same
+	// cache at the same time, all the time. The calls join the records above (counter identity, issue order); every hit is
+	// compared with the tap; the retrieval of every notification afterwards (below) is what decides.
+	type epiHit struct {
+		pi int
+		m  model.MsgCounterType
+		d  model.DatagramType
+	}
+	var epiMu sync.Mutex
+	var epiHits []epiHit
+	for pi, p := range cw.peers {
+		nn := preNotifies[pi]
+		var top model.MsgCounterType
+		for _, l := range calls {
+			for _, cl := range l {
+				if cl.peer == pi && cl.hasCtr {
+					if cl.kind == "notify" {
+						nn++
+					}
+					if cl.ctr > top {
+						top = cl.ctr
+					}
+				}
+			}
+		}
+		if nn > 60 {
+			continue
+		}
+		s := p.RD.Sender()
+		var stop atomic.Bool
+		var ewg, lwg sync.WaitGroup
+		epiCalls := make([][]c13Call, 2)
+		startE := make(chan struct{})
+		var epiBad atomic.Value
+		for n := 0; n < 2; n++ {
+			n := n
+			ewg.Add(1)
+			go func() {
+				defer ewg.Done()
+				ok, pan := rig.Guard(60*time.Second, func() {
+					<-startE
+					for i := 0; i < 15; i++ {
+						tag := fmt.Sprintf("e%d-%d-%d", pi, n, i)
+						cl := c13Call{peer: pi, g: G + n, kind: "notify", uniq: `"` + tag + `"`}
+						cl.start = rig.Seq()
+						mc, err := s.Notify(cw.srv.Address(), rig.FA(p.Addr, []uint{1}, 2), c13UniqueCmd(tag))
+						cl.end = rig.Seq()
+						if err != nil {
+							cl.kind += "!error:" + err.Error()
+						}
+						if mc != nil {
+							cl.ctr, cl.hasCtr = *mc, true
+						}
+						epiCalls[n] = append(epiCalls[n], cl)
+					}
+				})
+				if pan != "" {
+					epiBad.Store("panic: " + pan)
+				} else if !ok {
+					epiBad.Store("timeout")
+				}
+			}()
+		}
+		for n := 0; n < 2; n++ {
+			lwg.Add(1)
+			go func() {
+				defer lwg.Done()
+				_, pan := rig.Guard(60*time.Second, func() {
+					<-startE
+					var hits []epiHit
+					lim := 5000 // bounded: the lookups must not burn a processor for as long as a loaded machine keeps the notifying goroutines waiting
+					if c.Race {
+						lim = 1500
+					}
+					for i := 0; !stop.Load() && i < lim; i++ {
+						m := top + 1 + model.MsgCounterType(i%40)
+						if d, e := s.DatagramForMsgCounter(m); e == nil && len(hits) < 40 {
+							hits = append(hits, epiHit{pi, m, d})
+						}
+					}
+					epiMu.Lock()
+					epiHits = append(epiHits, hits...)
+					epiMu.Unlock()
+				})
+				if pan != "" {
+					epiBad.Store("panic: " + pan)
+				}
+			}()
+		}
+		close(startE)
+		ewg.Wait()
+		stop.Store(true)
+		lwg.Wait()
+		if v := epiBad.Load(); v != nil {
+			if strings.HasPrefix(v.(string), "panic") {
+				c.Violate("conc/panic", "epilogue (notifications against lookups): %s", v)
+			} else {
+				c.Inconclusive("epilogue: the notifications did not finish within 60s")
+			}
+			return
+		}
+		calls = append(calls, epiCalls...)
+		c.Count("conc:epilogues(30-notifications-against-two-goroutines-of-lookups)", 1)
+	}
+
 	var all []c13Call
 	kinds := map[string]bool{}
 	for _, l := range calls {
@@ -1295,7 +1506,7 @@ func c13Conc(c *rig.Ctx) {
 			}
 		}
 	}
-	datagrams, pairs := 0, 0
+	datagrams, pairs, notifLooked := 0, 0, 0
 	for pi, p := range cw.peers {
 		outs := p.Tap.TakeOut()
 		datagrams += len(outs)
@@ -1318,6 +1529,15 @@ func c13Conc(c *rig.Ctx) {
 		}
 		if len(p.Tap.Broken) > 0 {
 			c.Violate("tap/undecodable", "%v", p.Tap.Broken)
+		}
+		for _, h := range epiHits {
+			if h.pi != pi {
+				continue
+			}
+			c.Events(1)
+			if o, ok := byCtr[h.m]; !ok || rig.JS(o.D) != rig.JS(h.d) {
+				c.Violate("notifycache/wrong-datagram", "peer%d: DatagramForMsgCounter(%d), concurrent with the Notify calls of the epilogue, = %s, tap: %s", pi, h.m, rig.JS(h.d), rig.JS(o.D))
+			}
 		}
 		// identity of returned counter and datagram
 		type iv struct {
@@ -1417,6 +1637,44 @@ func c13Conc(c *rig.Ctx) {
 		if n := c13Sender(p).VerifRequestCacheLen(); n > c13CacheBound {
 			c.Violate("dedupe/memory-exceeds-bound", "peer%d: the sender remembers %d unanswered requests (bound %d)", pi, n, c13CacheBound)
 		}
+		// retrievability under concurrency: "the datagram of any of the last 100 notifications can be retrieved by its
+		// counter". All goroutines have finished; if this connection carried at most 100 notifications altogether, every
+		// one of them is among the last 100 - and the cache (capacity 100) was never full, so the lookups that ran
+		// concurrently (which promote entries: D19) cannot have evicted anything. Each one is looked up now,
+		// sequentially: it must be found and equal the datagram on the tap.
+		var notifs []rig.Out
+		for _, o := range outs {
+			if c13Cls(o.D) == model.CmdClassifierTypeNotify && o.D.Header.MsgCounter != nil {
+				notifs = append(notifs, o)
+			}
+		}
+		switch total := len(notifs) + preNotifies[pi]; {
+		case len(notifs) == 0:
+		case total <= 100:
+			missing := 0
+			for _, o := range notifs {
+				m := *o.D.Header.MsgCounter
+				d, err := c13Sender(p).DatagramForMsgCounter(m)
+				c.Events(1)
+				switch {
+				case err != nil:
+					missing++
+					if missing == 1 {
+						c.Violate("notifycache/last-100-missing-after-concurrent-use", "peer%d: the connection carried %d notifications (at most 100, so each is among the last 100 and nothing can have been evicted); after all concurrent calls have returned DatagramForMsgCounter(%d) does not find the notification %s", pi, total, m, rig.JS(o.D))
+					}
+				case rig.JS(d) != rig.JS(o.D):
+					c.Violate("notifycache/wrong-datagram", "peer%d: after the concurrent phase DatagramForMsgCounter(%d) = %s, the tap saw %s", pi, m, rig.JS(d), rig.JS(o.D))
+				}
+			}
+			notifLooked += len(notifs)
+			c.Count("conc:connections-with-at-most-100-notifications(every-one-looked-up-afterwards)", 1)
+			c.Count("conc:notifications-looked-up-after-the-concurrent-phase", int64(len(notifs)))
+			if missing > 0 {
+				c.Count("conc:notifications-missing-after-the-concurrent-phase(reported)", int64(missing))
+			}
+		default:
+			c.Count("conc:connections-with-more-than-100-notifications(retrieval-not-judged:D19)", 1)
+		}
 	}
 	var ks []string
 	for k := range kinds {
@@ -1428,7 +1686,7 @@ func c13Conc(c *rig.Ctx) {
 	c.Count("conc:ordered-call-pairs-checked", int64(pairs))
 	c.Shape(fmt.Sprintf("conc/G%d/per%d/few=%v/yield=%d", G, per/10, fewKeys, yieldEvery))
 	c.NonTrivial(datagrams >= 200 && pairs > 0)
-	c.Sample(map[string]any{"goroutines": G, "calls_per_goroutine": per, "few_keys": fewKeys, "writer_yields_every": yieldEvery, "datagrams": datagrams, "call_kinds": ks, "non_overlapping_pairs": pairs})
+	c.Sample(map[string]any{"goroutines": G, "calls_per_goroutine": per, "few_keys": fewKeys, "writer_yields_every": yieldEvery, "datagrams": datagrams, "call_kinds": ks, "non_overlapping_pairs": pairs, "notifications_looked_up_after_the_concurrent_phase": notifLooked})
 	if c.Failed() {
 		c.Witness(map[string]any{"goroutines": G, "calls_per_goroutine": per, "few_keys": fewKeys, "datagrams": datagrams})
 	}
@@ -1453,7 +1711,7 @@ func c13Mute(c *rig.Ctx) {
 		c.Inconclusive("the mute peer's announcement was not processed")
 		return
 	}
-	dom := append(c13Domain(cw, mp), c13Multi(cw, mp)...)
+	dom := append(append(c13Domain(cw, mp), c13Multi(cw, mp)...), c13Shapes(cw, mp)...)
 	// two more wrappers that end in Sender.Subscribe / Sender.Bind
 	type mreq struct {
 		c13Req
